@@ -48,6 +48,8 @@ type world struct {
 
 	lastFired bool // the last executed op had its injected failure delivered
 
+	mu sync.Mutex // guards the id tables (a raced operation runs in a second goroutine)
+
 	ids   map[int]types.FileContractID // registered small id -> contract id
 	idOf  map[types.FileContractID]int
 	roots map[types.Hash256]int
@@ -124,11 +126,15 @@ func rootHash(r int) types.Hash256 { return types.HashBytes([]byte(fmt.Sprintf("
 
 func (w *world) root(r int) types.Hash256 {
 	h := rootHash(r)
+	w.mu.Lock()
 	w.roots[h] = r
+	w.mu.Unlock()
 	return h
 }
 
 func (w *world) rootIDs(hs []types.Hash256) []int {
+	w.mu.Lock()
+	defer w.mu.Unlock()
 	out := make([]int, len(hs))
 	for i, h := range hs {
 		if r, ok := w.roots[h]; ok {
@@ -154,7 +160,10 @@ func (w *world) v2Formation(id int) (types.V2Transaction, types.FileContractID) 
 }
 
 func (w *world) fcid(id int, v2 bool) types.FileContractID {
-	if f, ok := w.ids[id]; ok {
+	w.mu.Lock()
+	f, ok := w.ids[id]
+	w.mu.Unlock()
+	if ok {
 		return f
 	}
 	if v2 {
@@ -165,6 +174,8 @@ func (w *world) fcid(id int, v2 bool) types.FileContractID {
 }
 
 func (w *world) register(id int, f types.FileContractID) {
+	w.mu.Lock()
+	defer w.mu.Unlock()
 	w.ids[id] = f
 	w.idOf[f] = id
 }
@@ -173,6 +184,8 @@ func (w *world) small(f types.FileContractID) int {
 	if f == (types.FileContractID{}) {
 		return -1
 	}
+	w.mu.Lock()
+	defer w.mu.Unlock()
 	if id, ok := w.idOf[f]; ok {
 		return id
 	}
@@ -602,12 +615,18 @@ func (w *world) doRenew2(tr *vhlib.Trace, p opLine, rc racer) {
 		w.register(nid, nf)
 	}
 	// when the successor was not created the new small id is not bound: observe the id the renewal would have had
+	w.mu.Lock()
 	if _, ok := w.ids[nid]; !ok {
 		if _, taken := w.idOf[nf]; !taken {
 			w.ids[nid] = nf
-			defer delete(w.ids, nid)
+			defer func() {
+				w.mu.Lock()
+				delete(w.ids, nid)
+				w.mu.Unlock()
+			}()
 		}
 	}
+	w.mu.Unlock()
 	tr.Count("renew2:" + strings.SplitN(res, ":", 2)[0])
 	tr.Line(p.Raw, fmt.Sprintf("lk=ok renewed=%d revisable=%d res=%s fired=%d refok=%d %s %s", vhlib.B01(st.Renewed), vhlib.B01(st.Revisable),
 		res, vhlib.B01(fired), w.refok(before), w.cobs("", id, true), w.cobs("n", nid, true)))
@@ -646,7 +665,9 @@ func (w *world) run(tr *vhlib.Trace, ops []opLine) {
 		raced := false
 		if p.Int("race") == 1 && i+1 < len(ops) {
 			next := ops[i+1]
-			if _, ok := contractOf(next); ok && (next.Op == "rpc1" || next.Op == "rev2" || next.Op == "renew1" || next.Op == "renew2" || next.Op == "lock1" || next.Op == "lock2") {
+			nc, ok := contractOf(next)
+			pc, pok := contractOf(p)
+			if ok && pok && nc == pc && (next.Op == "rpc1" || next.Op == "rev2" || next.Op == "renew1" || next.Op == "renew2" || next.Op == "lock1" || next.Op == "lock2") {
 				var wg sync.WaitGroup
 				var out *vhlib.Trace = tr
 				started := false
@@ -932,12 +953,13 @@ func (g *gen) renewLine(id int, v2 bool) (string, int) {
 }
 
 func (g *gen) afterRenew(id, nid int, v2 bool) {
-	// the successor exists iff the manager now serves a binding for it
-	f, ok := g.w.ids[nid]
+	// the successor exists iff the harness bound its id
+	g.w.mu.Lock()
+	_, ok := g.w.ids[nid]
+	g.w.mu.Unlock()
 	if !ok {
 		return
 	}
-	_ = f
 	if v2 {
 		g.v2 = append(g.v2, nid)
 	} else {
